@@ -91,6 +91,25 @@ pub mod verif {
         BATCHES_DONE.lock().unwrap().iter().find(|e| e.0 == exporter).map_or(0, |e| e.1)
     }
 
+    /// Exporters whose transport thread the harness has asked to exit (it is done with them).
+    static RETIRED: std::sync::Mutex<Vec<usize>> = std::sync::Mutex::new(Vec::new());
+
+    pub(crate) fn retire(exporter: usize) {
+        RETIRED.lock().unwrap().push(exporter);
+    }
+
+    pub(crate) fn take_retired(exporter: usize) -> bool {
+        let mut r = RETIRED.lock().unwrap();
+        match r.iter().position(|e| *e == exporter) {
+            Some(i) => {
+                r.swap_remove(i);
+                BATCHES_DONE.lock().unwrap().retain(|e| e.0 != exporter);
+                true
+            }
+            None => false,
+        }
+    }
+
     /// Answer the environment gives to one `write` call.
     #[derive(Clone, Copy, Debug)]
     pub enum WriteAnswer {
@@ -403,6 +422,13 @@ impl TcpRecorder {
     pub fn verif_batches_done(&self) -> u64 {
         verif::batches_done(Arc::as_ptr(&self.state) as usize)
     }
+
+    /// Tells the transport thread of this exporter to exit at the end of its next batch (the exporter itself has no
+    /// shutdown; a harness that builds thousands of exporters in one process would otherwise run out of threads).
+    pub fn verif_retire(&self) {
+        verif::retire(Arc::as_ptr(&self.state) as usize);
+        self.state.wake();
+    }
 }
 
 impl Recorder for TcpRecorder {
@@ -601,6 +627,10 @@ fn run_transport(
         }
         #[cfg(metrics_verif)]
         verif::batch_done(Arc::as_ptr(&state) as usize);
+        #[cfg(metrics_verif)]
+        if verif::take_retired(Arc::as_ptr(&state) as usize) {
+            return;
+        }
     }
 }
 
